@@ -35,12 +35,32 @@ pub fn panic_msg(e: &Box<dyn std::any::Any + Send>) -> String {
     }
 }
 
+static PANIC_LOG: std::sync::Mutex<Vec<String>> = std::sync::Mutex::new(Vec::new());
+
+/// Panics seen by the hook since the last call, as "file:line: message" (any thread; bounded).
+pub fn take_panic_log() -> Vec<String> {
+    std::mem::take(&mut *PANIC_LOG.lock().unwrap_or_else(|e| e.into_inner()))
+}
+
 /// Install a quiet panic hook (panics of the code under test are expected in some checks and
-/// are reported through the oracle; the default hook would flood stderr).
+/// are reported through the oracle; the default hook would flood stderr).  The hook records where
+/// each panic came from, so that a panic on another thread (a runtime worker) can be attributed.
 pub fn quiet_panics() {
     std::panic::set_hook(Box::new(|info| {
         if std::env::var("XV_SHOW_PANICS").is_ok() {
             eprintln!("panic: {info}");
+        }
+        let loc = info.location().map(|l| format!("{}:{}", l.file(), l.line())).unwrap_or_default();
+        let msg = if let Some(s) = info.payload().downcast_ref::<&str>() {
+            s.to_string()
+        } else if let Some(s) = info.payload().downcast_ref::<String>() {
+            s.clone()
+        } else {
+            String::new()
+        };
+        let mut g = PANIC_LOG.lock().unwrap_or_else(|e| e.into_inner());
+        if g.len() < 64 {
+            g.push(format!("{loc}: {}", msg.replace('\n', " ")));
         }
     }));
 }
